@@ -1,11 +1,44 @@
-"""C06 - see coq/props/C06.v and props/life_check.py (shared lifecycle check)."""
+"""C06 - the main loop survives anything its children, listeners or the kernel do.
+
+Decided by coq/props/C06.v (crash-freedom of the lifecycle model via the global invariant) and tied to /repo by
+  * the shared lifecycle correspondence (props/life_check.py) with a fault-heavy generator,
+  * a hostile stream run by the real main loop on the simulated kernel (hostile child output, errno faults
+    in read/close/waitpid/write, liveness probes), judged by the trace monitors,
+  * the listener-protocol and event-pool correspondences of C10 and C09 (hostile listener byte streams, full
+    stdin pipes, write errors at dispatch and at drain), whose parsers have their own no-crash theorems; any
+    exception escaping there is a C06 violation too.
+"""
+import importlib
+
+import vlib
 import life_check
 
 LEVEL = 'proof'
 
 
+def _sub(chk, modname):
+    mod = importlib.import_module(modname)
+    sub = vlib.Check('C06', chk.tier, chk.seed, level='proof')
+    mod.run(sub)
+    for path, nofail in sub.violations:
+        chk.violations.append((path, nofail))
+    cov, sc = chk.coverage, sub.coverage
+    cov['evaluations'] += sc.get('evaluations', 0)
+    cov['traces_validated_against_impl'] += sc.get('traces_validated_against_impl', 0)
+    cov['distinct_nontrivial'] += sc.get('distinct_nontrivial', 0)
+    cov.setdefault('sub_checks', {})[modname] = {
+        'evaluations': sc.get('evaluations', 0), 'theorems': [t.get('name') for t in sc.get('theorems', []) if isinstance(t, dict)],
+        'violations': len(sub.violations)}
+    cov['obligations'] += sc.get('obligations', 0)
+    cov['discharged'] += sc.get('discharged', 0)
+
+
 def run(chk):
     life_check.run_property(chk, 'C06', 'props/C06.v')
+    for m in ('c10', 'c09'):
+        _sub(chk, m)
+    chk.coverage['rule'] += ('; plus the C10 (listener protocol) and C09 (event pools) correspondences, run here because an '
+                             'exception escaping the listener parser, the pool dispatch or finish()/drain() ends the main loop')
 
 
 def replay(chk, path):
